@@ -293,7 +293,33 @@ func (p *Program) frameCheck(fn *ssa.Function) []frameFinding {
 							add(ins, "delete on map through "+what)
 						}
 					}
+					// append / copy write into the backing array of their first operand: a
+					// slice that belongs to a shared object (a scratch buffer kept in a
+					// long-lived component - a by-value copy of the component shares it) is
+					// written by every request that gets there
+					if bi, ok := c.Value.(*ssa.Builtin); ok && (bi.Name() == "append" || bi.Name() == "copy") && len(c.Args) > 0 {
+						if _, isSlice := c.Args[0].Type().Underlying().(*types.Slice); isSlice {
+							kind, root := rootOf(c.Args[0], 0)
+							if shared, what := sharedRoot(fn, kind, root); shared && !lockedBefore(ins) {
+								add(ins, bi.Name()+" into the backing array of a slice reached from "+what)
+							}
+						}
+					}
 					continue
+				}
+				if !p.inRepo(callee) && strings.HasPrefix(callee.Name(), "Append") {
+					// strconv.AppendInt, time.Time.AppendFormat, fmt.Append*, ...: append-style
+					// library functions write into the slice they are given
+					for _, a := range c.Args {
+						if _, isSlice := a.Type().Underlying().(*types.Slice); !isSlice {
+							continue
+						}
+						kind, root := rootOf(a, 0)
+						if shared, what := sharedRoot(fn, kind, root); shared && !lockedBefore(ins) {
+							add(ins, callee.Name()+" writes into the backing array of a slice reached from "+what)
+						}
+						break
+					}
 				}
 				if p.inRepo(callee) {
 					// a shared container handed to a callee that changes it, or that
